@@ -46,6 +46,7 @@ type Inventory struct {
 	Fields  map[string]string `json:"fields"` // "pkg|Struct|field" -> type
 	Vars    map[string]string `json:"vars"`   // "pkg|name" -> "var|const|type <type>"
 	Params  map[string]string `json:"params"` // "pkg|recv|name" -> "recv;p1,p2;r1,r2" (declared names)
+	Std     map[string]int    `json:"std"`    // "pkg/file.go|slices.Contains" -> number of calls (library helpers that replace loops)
 }
 
 type NormReport struct {
@@ -95,6 +96,27 @@ func recvString(fd *ast.FuncDecl) string {
 
 // scanParams, when non-nil, collects the declared parameter names during a scan (single-threaded use).
 var scanParams map[string]map[string]bool
+
+// scanStd, when non-nil, counts per file the calls of library helpers that stand for a hand-written loop.
+var scanStd map[string]int
+
+var stdLoopHelpers = map[string]bool{"slices.Contains": true}
+
+func countStd(rel string, fname string, f *ast.File) {
+	if scanStd == nil {
+		return
+	}
+	ast.Inspect(f, func(x ast.Node) bool {
+		if c, ok := x.(*ast.CallExpr); ok {
+			if se, ok := c.Fun.(*ast.SelectorExpr); ok {
+				if id, ok := se.X.(*ast.Ident); ok && stdLoopHelpers[id.Name+"."+se.Sel.Name] {
+					scanStd[rel+"/"+filepath.Base(fname)+"|"+id.Name+"."+se.Sel.Name]++
+				}
+			}
+		}
+		return true
+	})
+}
 
 // syntacticNames lists the names of one parsed file in the inventory's key format.
 func syntacticNames(rel string, f *ast.File, funcs, fields, vars map[string]bool) {
@@ -167,6 +189,7 @@ func scanNames(dir string, overlay map[string][]byte, pkgs map[string]bool) (fun
 				}
 			}
 			syntacticNames(rel, f, funcs, fields, vars)
+			countStd(rel, full, f)
 		}
 	}
 	return
@@ -197,7 +220,10 @@ func MakeInventory(dir string) (*Inventory, error) {
 			pk[relPkg(pkg.PkgPath)] = true
 		}
 	}
+	scanStd = map[string]int{}
 	funcs, fields, vars, err := scanNames(dir, nil, pk)
+	inv.Std = scanStd
+	scanStd = nil
 	if err != nil {
 		return nil, err
 	}
@@ -381,13 +407,22 @@ func Normalise(o LoadOpts, inv *Inventory) (map[string][]byte, *NormReport) {
 	}
 	pk := invPkgs(inv)
 	scanParams = map[string]map[string]bool{}
+	scanStd = map[string]int{}
 	funcs, fields, vars, err := scanNames(o.Dir, o.Overlay, pk)
 	params := scanParams
-	scanParams = nil
+	std := scanStd
+	scanParams, scanStd = nil, nil
 	if err != nil {
 		return o.Overlay, rep // the real load reports the syntax error
 	}
 	unknown := 0
+	stdFiles := map[string]bool{} // "pkg/file.go" with more loop-replacing library calls than the inventory knows
+	for k, n := range std {
+		if n > inv.Std[k] {
+			unknown++
+			stdFiles[k[:strings.Index(k, "|")]] = true
+		}
+	}
 	for k, v := range params {
 		if w, ok := inv.Params[k]; ok && !v[w] {
 			unknown++
@@ -417,7 +452,7 @@ func Normalise(o LoadOpts, inv *Inventory) (map[string][]byte, *NormReport) {
 	if err != nil {
 		return o.Overlay, rep
 	}
-	n := &normaliser{p: p, inv: inv, rep: rep, modified: map[ast.Node]bool{}, addImports: map[*ast.File]map[string]string{}}
+	n := &normaliser{p: p, inv: inv, rep: rep, modified: map[ast.Node]bool{}, addImports: map[*ast.File]map[string]string{}, stdFiles: stdFiles}
 	n.run()
 	if len(rep.Renamed) == 0 && len(rep.Inlined) == 0 {
 		return o.Overlay, rep
@@ -475,13 +510,16 @@ func Normalise(o LoadOpts, inv *Inventory) (map[string][]byte, *NormReport) {
 }
 
 type normaliser struct {
-	p          *Prog
-	inv        *Inventory
-	rep        *NormReport
-	modified   map[ast.Node]bool             // top-level declarations that must be re-printed
-	addImports map[*ast.File]map[string]string // file -> import path -> name
-	removed    map[ast.Decl]bool               // fully expanded helpers
-	counter    int
+	p           *Prog
+	inv         *Inventory
+	rep         *NormReport
+	modified    map[ast.Node]bool               // top-level declarations that must be re-printed
+	addImports  map[*ast.File]map[string]string // file -> import path -> name
+	removed     map[ast.Decl]bool               // fully expanded helpers
+	stdFiles    map[string]bool                 // files in which library loop helpers are expanded
+	stdExpanded map[*ast.File]bool
+	methodised []*types.Func
+	counter     int
 }
 
 func (n *normaliser) fileTouched(f *ast.File) bool {
@@ -682,6 +720,84 @@ func (n *normaliser) run() {
 	}
 	sort.Strings(n.rep.Renamed)
 
+	// ---- a method that became a plain function taking the old receiver first (or got a new name on the way) ----
+	// missing:  pkg|*T|m  with signature S      unknown:  pkg||f  with signature func(*T, S.params...) S.results
+	// The declaration is turned back into the method and every call f(x, a...) into x.m(a...).
+	{
+		type cand struct {
+			f    fn
+			rest string // signature without the first parameter
+			recv string
+		}
+		var cands []cand
+		for _, f := range fns {
+			if _, known := n.inv.Funcs[f.key]; known || renames[f.obj] != "" || f.fd.Recv != nil {
+				continue
+			}
+			sig := f.obj.Type().(*types.Signature)
+			if sig.Params().Len() == 0 || sig.Variadic() && sig.Params().Len() == 1 || sig.TypeParams().Len() > 0 {
+				continue
+			}
+			var ps []*types.Var
+			for i := 1; i < sig.Params().Len(); i++ {
+				ps = append(ps, types.NewVar(token.NoPos, nil, "", sig.Params().At(i).Type()))
+			}
+			var rs []*types.Var
+			for i := 0; i < sig.Results().Len(); i++ {
+				rs = append(rs, types.NewVar(token.NoPos, nil, "", sig.Results().At(i).Type()))
+			}
+			rest := types.TypeString(types.NewSignatureType(nil, nil, nil, types.NewTuple(ps...), types.NewTuple(rs...), sig.Variadic()), fullQual)
+			rt := sig.Params().At(0).Type()
+			recv := ""
+			if pt, ok := rt.(*types.Pointer); ok {
+				if nt, ok := pt.Elem().(*types.Named); ok && nt.Obj().Pkg() == f.obj.Pkg() {
+					recv = "*" + nt.Obj().Name()
+				}
+			} else if nt, ok := rt.(*types.Named); ok && nt.Obj().Pkg() == f.obj.Pkg() {
+				recv = nt.Obj().Name()
+			}
+			if recv == "" || len(f.fd.Type.Params.List) == 0 || len(f.fd.Type.Params.List[0].Names) != 1 {
+				continue
+			}
+			cands = append(cands, cand{f, rest, recv})
+		}
+		for k, sig := range n.inv.Funcs {
+			if have[k] || sig == "" {
+				continue
+			}
+			parts := strings.Split(k, "|")
+			if len(parts) != 3 || parts[1] == "" {
+				continue
+			}
+			var match []cand
+			for _, c := range cands {
+				if relPkg(c.f.di.pkg.PkgPath) == parts[0] && c.recv == parts[1] && c.rest == sig {
+					match = append(match, c)
+				}
+			}
+			if len(match) > 1 {
+				var same []cand
+				for _, c := range match {
+					if c.f.obj.Name() == parts[2] {
+						same = append(same, c)
+					}
+				}
+				match = same
+			}
+			if len(match) != 1 {
+				continue
+			}
+			c := match[0]
+			if n.methodise(c.f.obj, c.f.fd, c.f.di, parts[2]) {
+				have[k] = true
+				renames[c.f.obj] = "" // handled: neither a rename nor a helper
+				delete(renames, c.f.obj)
+				n.methodised = append(n.methodised, c.f.obj)
+				n.rep.Renamed = append(n.rep.Renamed, fmt.Sprintf("func %s -> method (%s).%s (same parameters after the receiver; the method is gone)", short(c.f.obj.FullName()), parts[1], parts[2]))
+			}
+		}
+	}
+
 	// ---- parameter names of known functions (rules may refer to a parameter by its name) -------------------
 	for _, f := range fns {
 		key := f.key
@@ -755,6 +871,15 @@ func (n *normaliser) run() {
 			continue
 		}
 		if _, ren := renames[f.obj]; ren {
+			continue
+		}
+		skipM := false
+		for _, mo := range n.methodised {
+			if mo == f.obj {
+				skipM = true
+			}
+		}
+		if skipM {
 			continue
 		}
 		if f.obj.Exported() || f.fd.Body == nil {
@@ -841,7 +966,7 @@ func (n *normaliser) run() {
 	}
 
 	// ---- inline the helpers -----------------------------------------------------------------------------
-	if len(helpers) > 0 {
+	if len(helpers) > 0 || len(n.stdFiles) > 0 {
 		// bottom-up: helpers that call other helpers are expanded first (bounded)
 		for round := 0; round < 3; round++ {
 			for _, pkg := range n.p.Pkgs {
@@ -862,6 +987,9 @@ func (n *normaliser) run() {
 							continue // rounds 0,1: expand inside helper bodies; round 2: everywhere else
 						}
 						il := &inliner{n: n, pkg: pkg, file: f, helpers: helpers, decl: fd}
+						if i := fileIndex(pkg, f); i >= 0 {
+							il.std = n.stdFiles[relPkg(pkg.PkgPath)+"/"+filepath.Base(pkg.CompiledGoFiles[i])]
+						}
 						fd.Body.List = il.list(fd.Body.List)
 						if il.changed {
 							n.modified[d] = true
@@ -959,7 +1087,17 @@ func unsuitableBody(fd *ast.FuncDecl, info *types.Info, self *types.Func) string
 // ---------------------------------------------------------------------------------------------------------
 // the inliner
 
+func fileIndex(pkg *packages.Package, f *ast.File) int {
+	for i, x := range pkg.Syntax {
+		if x == f && i < len(pkg.CompiledGoFiles) {
+			return i
+		}
+	}
+	return -1
+}
+
 type inliner struct {
+	std     bool // expand slices.Contains in this file
 	n       *normaliser
 	pkg     *packages.Package
 	file    *ast.File
@@ -1168,6 +1306,11 @@ func (il *inliner) find(e ast.Expr, safe *bool) *ast.CallExpr {
 		return nil
 	case *ast.CallExpr:
 		fo, _, _ := il.helperCall(x)
+		if fo == nil && il.std {
+			if sf := il.stdLoopCall(x); sf != nil {
+				fo = sf
+			}
+		}
 		if se, ok := x.Fun.(*ast.SelectorExpr); ok {
 			if c := il.find(se.X, safe); c != nil {
 				return c
@@ -1372,6 +1515,23 @@ func (il *inliner) stmt(s ast.Stmt) (pre []ast.Stmt, repl ast.Stmt) {
 			}
 			return pre, repl
 		}
+		if sf := il.stdLoopCall(call); sf != nil && il.std {
+			exp, res, ok := il.expandContains(call)
+			if !ok {
+				return pre, repl
+			}
+			pre = append(pre, exp...)
+			il.changed = true
+			if il.n.stdExpanded == nil {
+				il.n.stdExpanded = map[*ast.File]bool{}
+			}
+			il.n.stdExpanded[il.file] = true
+			il.n.rep.Inlined = append(il.n.rep.Inlined, fmt.Sprintf("slices.Contains (as the loop it stands for) in %s", il.declName()))
+			if !replaceExpr(slot, call, ident(res)) {
+				return pre, repl
+			}
+			continue
+		}
 		fo, fd, recv := il.helperCall(call)
 		sig := fo.Type().(*types.Signature)
 		nres := sig.Results().Len()
@@ -1502,6 +1662,66 @@ func (il *inliner) shortCircuit(slot *ast.Expr) ([]ast.Stmt, bool) {
 	out = append(out, &ast.IfStmt{Cond: cond, Body: &ast.BlockStmt{List: body}})
 	*holder = ident(cv)
 	return out, true
+}
+
+// stdLoopCall: is c a call of a library helper that stands for a loop (slices.Contains)?
+func (il *inliner) stdLoopCall(c *ast.CallExpr) *types.Func {
+	se, ok := c.Fun.(*ast.SelectorExpr)
+	if !ok {
+		return nil
+	}
+	fo, ok := il.pkg.TypesInfo.Uses[se.Sel].(*types.Func)
+	if !ok || fo.Pkg() == nil || fo.Pkg().Path() != "slices" || fo.Name() != "Contains" || len(c.Args) != 2 {
+		return nil
+	}
+	return fo
+}
+
+// expandContains writes slices.Contains(xs, v) as the loop it stands for:
+//
+//	var a0 = xs; var a1 = v; var r bool
+//	{ L: for _, e := range a0 { if e == a1 { r = true; break L } } }
+func (il *inliner) expandContains(call *ast.CallExpr) ([]ast.Stmt, string, bool) {
+	info := il.pkg.TypesInfo
+	t0, t1 := info.TypeOf(call.Args[0]), info.TypeOf(call.Args[1])
+	if t0 == nil || t1 == nil {
+		return nil, "", false
+	}
+	// the element type, for an untyped constant operand
+	if sl, ok := t0.Underlying().(*types.Slice); ok {
+		if b, isB := t1.(*types.Basic); isB && b.Info()&types.IsUntyped != 0 {
+			t1 = sl.Elem()
+		}
+	}
+	e0, e1 := il.typeExpr(t0), il.typeExpr(t1)
+	if e0 == nil || e1 == nil {
+		return nil, "", false
+	}
+	il.n.counter++
+	tag := fmt.Sprintf("_inl%d", il.n.counter)
+	mk := func(name string, t ast.Expr, val ast.Expr) ast.Stmt {
+		vs := &ast.ValueSpec{Names: []*ast.Ident{ident(name)}, Type: t}
+		if val != nil {
+			vs.Values = []ast.Expr{val}
+		}
+		return &ast.DeclStmt{Decl: &ast.GenDecl{Tok: token.VAR, Specs: []ast.Spec{vs}}}
+	}
+	res := tag + "_r0"
+	loop := &ast.RangeStmt{Key: ident("_"), Value: ident(tag + "_e"), Tok: token.DEFINE, X: ident(tag + "_a0"),
+		Body: &ast.BlockStmt{List: []ast.Stmt{&ast.IfStmt{
+			Cond: &ast.BinaryExpr{X: ident(tag + "_e"), Op: token.EQL, Y: ident(tag + "_a1")},
+			Body: &ast.BlockStmt{List: []ast.Stmt{
+				&ast.AssignStmt{Lhs: []ast.Expr{ident(res)}, Tok: token.ASSIGN, Rhs: []ast.Expr{ident("true")}},
+				&ast.BranchStmt{Tok: token.BREAK, Label: ident(tag)},
+			}},
+		}}}}
+	out := []ast.Stmt{
+		mk(tag+"_a0", e0, call.Args[0]),
+		mk(tag+"_a1", e1, call.Args[1]),
+		mk(res, ident("bool"), nil),
+		&ast.BlockStmt{List: []ast.Stmt{&ast.LabeledStmt{Label: ident(tag), Stmt: loop}}},
+	}
+	return out, res, true
 }
 
 func (il *inliner) declName() string {
@@ -1931,5 +2151,76 @@ func (n *normaliser) render(f *ast.File, name string, src []byte) ([]byte, error
 		emitImports()
 	}
 	out.Write(src[cur:])
+	// an import whose only uses were expanded away must stay used
+	if n.stdExpanded[f] {
+		out.WriteString("\nvar _ = slices.Contains[[]string, string]\n")
+	}
 	return out.Bytes(), nil
+}
+
+// methodise turns `func f(recv T, ps...) rs` back into `func (recv T) name(ps...) rs` and every direct call
+// f(x, a...) into x.name(a...). It refuses (and changes nothing) when f is used other than in direct calls.
+func (n *normaliser) methodise(obj *types.Func, fd *ast.FuncDecl, di declInfo, name string) bool {
+	pkg := di.pkg
+	// all uses must be direct calls within the package
+	type site struct {
+		call *ast.CallExpr
+		decl ast.Decl
+	}
+	var sites []site
+	okAll := true
+	for _, f := range pkg.Syntax {
+		for _, d := range f.Decls {
+			calls := map[*ast.Ident]*ast.CallExpr{}
+			ast.Inspect(d, func(x ast.Node) bool {
+				if c, ok := x.(*ast.CallExpr); ok {
+					if id, ok := c.Fun.(*ast.Ident); ok {
+						calls[id] = c
+					}
+				}
+				return true
+			})
+			ast.Inspect(d, func(x ast.Node) bool {
+				if id, ok := x.(*ast.Ident); ok && pkg.TypesInfo.Uses[id] == types.Object(obj) {
+					c := calls[id]
+					if c == nil || len(c.Args) == 0 || c.Ellipsis.IsValid() && len(c.Args) == 1 {
+						okAll = false
+					} else {
+						sites = append(sites, site{c, d})
+					}
+				}
+				return true
+			})
+		}
+	}
+	for _, p2 := range n.p.Pkgs {
+		if p2 == pkg || !productPkg(p2.PkgPath) {
+			continue
+		}
+		for _, o := range p2.TypesInfo.Uses {
+			if o == types.Object(obj) {
+				okAll = false
+			}
+		}
+	}
+	if !okAll {
+		return false
+	}
+	first := fd.Type.Params.List[0]
+	fd.Recv = &ast.FieldList{List: []*ast.Field{{Names: first.Names, Type: first.Type}}}
+	fd.Type.Params.List = fd.Type.Params.List[1:]
+	fd.Name = ident(name)
+	n.modified[di.decl] = true
+	for _, s := range sites {
+		recv := s.call.Args[0]
+		switch recv.(type) {
+		case *ast.Ident, *ast.SelectorExpr, *ast.CallExpr, *ast.IndexExpr, *ast.ParenExpr:
+		default:
+			recv = &ast.ParenExpr{X: recv}
+		}
+		s.call.Fun = &ast.SelectorExpr{X: recv, Sel: ident(name)}
+		s.call.Args = s.call.Args[1:]
+		n.modified[s.decl] = true
+	}
+	return true
 }
